@@ -279,15 +279,29 @@ func (r *rlManager) do(creds *rlCreds, sc int, op, n string, v int) (outcome str
 	return
 }
 
+// rlLookupPanics is what observe reports for a namespace whose lookup panics in the real code (e.g. the visible
+// generation is nil): an observation like any other, it never equals a reference value.
+const rlLookupPanics = -2
+
+func (r *rlManager) lookup(n string) (v int) {
+	defer func() {
+		if recover() != nil {
+			v = rlLookupPanics
+		}
+	}()
+	if ns := r.m.GetNamespace(n); ns != nil {
+		v = ns.GetMaxExecuteTime() - rlVersionBase
+		if ns.GetName() != n {
+			v = -1
+		}
+	}
+	return
+}
+
 func (r *rlManager) observe() []int {
 	out := make([]int, len(r.names))
 	for i, n := range r.names {
-		if ns := r.m.GetNamespace(n); ns != nil {
-			out[i] = ns.GetMaxExecuteTime() - rlVersionBase
-			if ns.GetName() != n {
-				out[i] = -1
-			}
-		}
+		out[i] = r.lookup(n)
 	}
 	return out
 }
@@ -300,7 +314,12 @@ var rlSalt = []byte("0123456789abcdefghij")
 type rlAuthFn func(u, p string) string
 
 func rlAuthOf(checkUser func(string) bool, checkPw func(string, []byte, []byte) (bool, string), nsOf func(string, string) string, exists func(string) bool) rlAuthFn {
-	return func(u, p string) string {
+	return func(u, p string) (res string) {
+		defer func() {
+			if recover() != nil {
+				res = "<the lookup panics>"
+			}
+		}()
 		if !checkUser(u) {
 			return ""
 		}
@@ -332,7 +351,12 @@ func (r *rlManager) authHandshake() rlAuthFn {
 		cc.closed.Store(false)
 		r.sess = cc
 	}
-	return func(u, p string) string {
+	return func(u, p string) (res string) {
+		defer func() {
+			if recover() != nil {
+				res = "<the lookup panics>"
+			}
+		}()
 		cc := r.sess
 		cc.namespace, cc.executor.namespace, cc.executor.user = "", "", ""
 		err := cc.handleHandshakeResponse(HandshakeResponseInfo{CollationID: mysql.DefaultCollationID, User: u,
@@ -598,6 +622,8 @@ func rlReplayManager(creds *rlCreds, c *rlCase, res *verifkit.Result, cnt *rlCou
 				b, e, g := tracked[j], exp[j], got[j]
 				var kind string
 				switch {
+				case g == rlLookupPanics:
+					kind = "cannot be looked up any more: GetNamespace panics"
 				case e == b && g == 0:
 					kind = "is lost"
 				case e == b && b == 0 && ok && strings.Contains(sh, "delete("+who+")"):
@@ -767,6 +793,9 @@ func rlAuthSig(creds *rlCreds, c *rlCase, st *rlStep, p [2]string, want, got str
 	op := st.Op
 	if op == "commit" || op == "prepare" {
 		op = "reload"
+	}
+	if op == "badprepare" {
+		op = "rejected submission"
 	}
 	return fmt.Sprintf("C29 %s -> %s; the pair %s", op, kind, relation)
 }
@@ -1011,11 +1040,7 @@ func TestVerifReloadConcurrent(t *testing.T) {
 				<-start
 				for _, n := range c.Lookups {
 					rec("lstart", 0, "lookup", n, 0, "")
-					v := 0
-					if ns := r.m.GetNamespace(n); ns != nil {
-						v = ns.GetMaxExecuteTime() - rlVersionBase
-					}
-					rec("lend", 0, "lookup", n, v, "ok")
+					rec("lend", 0, "lookup", n, r.lookup(n), "ok")
 				}
 			}()
 		}
